@@ -41,6 +41,8 @@ func C03(e *Env) {
 		r.Rule("R03.5t", "the instantiated helper calls type-check: concatenateChunks returns (string, error) as the concatenation template assumes, getParam/callProvider/env helpers have the signatures the token codes use (subset of R01.2: errors in helper or token code only)", 1)
 	}
 	c03FactoryOrder(e)
+	c02ConstUsage(e, "R02.2")
+	r.Rule("R02.2", "each token factory and Tokens.GoCode use the code template of their own kind (shared with C02): a reference becomes getParam, several chunks become concatenateChunks", 17)
 	var tv []RegexVar
 	for _, v := range regexVars(e) {
 		if v.Rel == tokenRel || v.Rel == resolverRel {
